@@ -838,6 +838,10 @@ def check_spellings(run, node, f, count, how, i, legacy=None, aliases=None):
                                              'got': [r[0], r[1].hex() if r[0] == 'ok' else r[1]],
                                              'want': exp.hex(), 'fork': f}):
                 break
+    # ... and right after the short forms of the push instructions, whose parser looks
+    # ahead for the next op name (expected bytes: the parts compiled on their own)
+    for sp in [f['name']] + aliases[:1]:
+        linear_contexts(run, node, sp, arg, want, i, 'upgraded')
     # the upgraded node decompiles the bytes to the new name, and the listing recompiles
     r = node.call('decompile', want)
     ok = r[0] == 'ok' and len(r[1]) == 1 and r[1][0].split()[0] == f['name'].upper()
@@ -855,6 +859,28 @@ def check_spellings(run, node, f, count, how, i, legacy=None, aliases=None):
                   'C20/one_bytecode/legacy_nop_spelling_differs', step=i, detail={'got': lg})
 
 
+LINEAR = [('op_push1 x01', ''), ('op_push2 x0102', ''), ('op_push0 x07', ''), ('push x01', 'pop0'),
+          ('OP_PUSH1 d1 x07', 'true')]
+
+
+def linear_contexts(run, node, spelled, arg, want, i, which):
+    """`<prefix> <op> <arg> <suffix>` must compile to compile(prefix) + op bytes +
+    compile(suffix): the op is recognised as an op after every form of push."""
+    for pre, suf in LINEAR:
+        a = node.call('compile', pre)
+        b = node.call('compile', suf) if suf else ['ok', b'']
+        if a[0] != 'ok' or b[0] != 'ok':
+            continue
+        r = node.call('compile', ' '.join(x for x in (pre, spelled, arg, suf) if x))
+        if not run.check('op_recognised_after_a_push', r == ['ok', a[1] + want + b[1]],
+                         'C20/one_bytecode/%s_after_short_push/%s' % (
+                             which, 'does_not_compile' if r[0] == 'exc' else 'compiles_to_other_bytes'),
+                         step=i, detail={'source': ' '.join(x for x in (pre, spelled, arg, suf) if x),
+                                         'got': [r[0], r[1].hex() if r[0] == 'ok' else r[1]],
+                                         'want': (a[1] + want + b[1]).hex()}):
+            break
+
+
 def check_legacy_spelling(run, node, f, count, i):
     """F2 on a node without fork f: NOPn spelling, decompile and recompile."""
     code = f['code']
@@ -869,6 +895,7 @@ def check_legacy_spelling(run, node, f, count, i):
     r = node.call('compile', 'NOP%d x%02x' % (code, count))
     run.check('legacy_compiles_nop_hex', r == ['ok', want], 'C20/one_bytecode/legacy_compile_nop_hex', step=i,
               detail={'got': [r[0], r[1].hex() if r[0] == 'ok' else r[1]], 'want': want.hex()})
+    linear_contexts(run, node, 'NOP%d' % code, 'x%02x' % count, want, i, 'legacy')
     r = node.call('decompile', want)
     ok = r[0] == 'ok' and len(r[1]) == 1 and r[1][0].split()[0] == 'NOP%d' % code
     run.check('legacy_decompiles_as_nop', ok, 'C20/one_bytecode/legacy_decompile', step=i, detail={'got': r})
